@@ -107,6 +107,18 @@ impl Frame {
     }
 }
 
+#[cfg(feature = "verif")]
+impl Frame {
+    /// Verification hook: index into the process's locals where this frame's slots begin.
+    pub fn verif_locals_base(&self) -> usize {
+        self.locals_base
+    }
+
+    pub fn verif_captures_count(&self) -> usize {
+        self.captures_count
+    }
+}
+
 #[derive(Debug, Clone)]
 pub struct SelectState {
     /// The frame index where the select instruction is
